@@ -148,6 +148,20 @@ struct Pt2 { x: u8 }
 struct UsesPts { a: Pt<u8>, b: Pt2 }
 #[derive(TS)]
 struct CarAliased { wheels: Wheels, seats: Seats, engine: MaybeEngine }
+// `export_to` values that are files without the `.ts` extension, and a directory whose name ends in `.ts`
+// (only a trailing `/` makes it a directory; anything else is the file, verbatim)
+#[derive(TS)]
+#[ts(export_to = "forms/index")]
+struct NoExt { v: u8 }
+#[derive(TS)]
+#[ts(export_to = "forms/types.d.mts")]
+struct OtherExt { v: u8 }
+#[derive(TS)]
+#[ts(export_to = "forms/v1.ts/")]
+struct DotDir { v: u8 }
+#[derive(TS)]
+#[ts(export_to = ".hidden")]
+struct Hidden { v: u8 }
 
 struct Entry {
     name: &'static str,
@@ -218,6 +232,7 @@ fn universe() -> Vec<Entry> {
         entry::<UserId>("UserId"), entry::<UserID>("UserID"), entry::<Userid>("Userid"), entry::<UsesIds>("UsesIds"),
         entry::<User>("User"), entry::<shapes::Point>("shapes::Point"), entry::<geo::Point>("geo::Point"), entry::<geo::Srid>("Srid"),
         entry::<UsesPoints>("UsesPoints"), entry::<Pt<u8>>("Pt<u8>"), entry::<Pt2>("Pt2"), entry::<UsesPts>("UsesPts"),
+        entry::<NoExt>("NoExt"), entry::<OtherExt>("OtherExt"), entry::<DotDir>("DotDir"), entry::<Hidden>("Hidden"),
     ]
 }
 
